@@ -1616,6 +1616,17 @@ def _op_wire_tx(ctx, W, st):
          "outs": [{"value": o["value"], "script": bytes.fromhex(o["script"])} for o in t["outs"]]}
     try:
         tx = _mk_obj(W, m, [None] * len(m["ins"]))
+        via = st.get("wit_via")
+        if via:
+            # the witness handed over through the public setter, in whatever container the caller has at hand
+            for j_, i_ in enumerate(m["ins"]):
+                w_ = list(i_["witness"])
+                if not w_:
+                    continue
+                arg = {"list": w_, "tuple": tuple(w_), "iter": iter(w_), "gen": (x_ for x_ in w_)}[via]
+                tx.set_witness(j_, arg)
+                if via in ("iter", "gen"):
+                    ctx.probe("wire_tx_set_witness_one_shot_iterator")
         raw = tx.as_bin()
         legacy = tx.as_bin(include_witness_data=False)
         back = W.Tx.from_bin(raw)
